@@ -18,6 +18,9 @@ pub enum ReadPlan {
     Loop { sizes: Vec<usize>, via_split: bool },
     /// explicit read() calls on `text_reader()` (only meaningful for ASCII payloads declared as UTF-8)
     TextReader { sizes: Vec<usize> },
+    /// `json()` (false) or `json_utf8()` (true) into a `serde_json::Value`; "delivered" is the
+    /// compact serialisation of the value
+    Json(bool),
 }
 
 impl ReadPlan {
@@ -30,6 +33,7 @@ impl ReadPlan {
             ReadPlan::ReadToEnd => "read_to_end()".into(),
             ReadPlan::Loop { sizes, via_split } => format!("read-loop{:?}{}", sizes, if *via_split { " via split()" } else { "" }),
             ReadPlan::TextReader { sizes } => format!("text_reader-loop{:?}", sizes),
+            ReadPlan::Json(utf8) => if *utf8 { "json_utf8()".into() } else { "json()".into() },
         }
     }
     pub fn is_loop(&self) -> bool {
@@ -245,6 +249,10 @@ pub fn consume(resp: Response, plan: &ReadPlan, extra_after_end: usize) -> Consu
                 }
                 Err(e) => Consumed { delivered: v, end: End::Error(format!("{e:?}")), read_calls: 0, short_reads: 0, interrupted: 0, after_end: vec![], after_end_bytes: vec![] },
             }
+        }
+        ReadPlan::Json(utf8) => {
+            let r = if *utf8 { resp.json_utf8::<serde_json::Value>() } else { resp.json::<serde_json::Value>() };
+            simple(r.map(|v| serde_json::to_vec(&v).unwrap_or_default()).map_err(|e| format!("{e:?}")))
         }
         ReadPlan::TextUtf8 => simple(resp.text_utf8().map(|s| s.into_bytes()).map_err(|e| format!("{e:?}"))),
         ReadPlan::ReadToEnd => {
